@@ -21,6 +21,17 @@ def run_lines(exe, lines, mode=None, env=None, timeout=1500, wrap=False):
     return res
 
 
+def run_chunk(exe, lines, pool, tag):
+    path = os.path.join(vlib.BUILD, "C13", "in_%d_%d.txt" % (os.getpid(), tag))
+    open(path, "w").write("\n".join(lines) + "\n")
+    rc, out, err = sh2([exe, path], timeout=1500, env={"RAYON_NUM_THREADS": pool})
+    os.remove(path)
+    res = out.splitlines()
+    if rc != 0 or len(res) != len(lines):
+        raise RuntimeError("%s failed rc=%s (%d of %d lines)\n%s" % (exe, rc, len(res), len(lines), err[-2000:]))
+    return res
+
+
 def parse_sched(seg):
     toks = seg.split()
     d = {}
@@ -62,16 +73,23 @@ def run(ctx):
     if not r["ok"]:
         ncase *= 3
     lines = []
+    nstall = 6 if ctx.thorough() else 1
     for k in range(ncase):
-        lines.append("%d %d %d %d" % (rng.randrange(1, 2 ** 40), nsched, rng.choice([6, 15, 30, 60]),
-                                      rng.choice([2000, 20000, 70000, 200000])))
+        # last field: bit 0 = one more schedule in which a pack write stalls for 12 s behind one-blob
+        # packs; bit 1 = prune (repack_all, fast and re-encoding repack into one-blob packs) under the watchdog
+        extra = 2 | (1 if k < nstall else 0)
+        lines.append("%d %d %d %d %d" % (rng.randrange(1, 2 ** 40), nsched, rng.choice([6, 15, 30, 60]),
+                                         rng.choice([2000, 20000, 70000, 200000]), extra))
     outs = []
     pools = ["1", "2", "4", "16"]
     per = (len(lines) + len(pools) - 1) // len(pools)
-    for pi, pool in enumerate(pools):
+    import concurrent.futures
+    def one(pi):
         chunk = lines[pi * per:(pi + 1) * per]
-        if chunk:
-            outs += run_lines(impl, chunk, env={"RAYON_NUM_THREADS": pool})
+        return run_chunk(impl, chunk, pools[pi], pi) if chunk else []
+    with concurrent.futures.ThreadPoolExecutor(max_workers=len(pools)) as ex:
+        for res in ex.map(one, range(len(pools))):
+            outs += res
     viol, replays, samples, hist = [], [], [], {"schedules": 0, "packs": 0, "dup_across_packs": 0}
     nontriv = set()
     for li, (ln, out) in enumerate(zip(lines, outs)):
@@ -80,6 +98,13 @@ def run(ctx):
             viol.append(("backup under a perturbed schedule did not complete: " + out.split()[0], ln, out, pool)); continue
         segs = [x.strip() for x in out.split("|")]
         scheds = [parse_sched(s) for s in segs[1:]]
+        for tok in segs[0].split():
+            if tok.startswith("prune"):
+                hist["prune_runs"] = hist.get("prune_runs", 0) + 1
+                kind, val = tok.split("=")
+                cl, unidx, miss = val.split(":")
+                if cl != "1" or unidx != "0" or miss != "0":
+                    viol.append(("after prune with %s repack: check clean=%s, packs not in the index=%s, referenced blobs missing=%s" % ("fast" if kind == "prune1" else "re-encoding", cl, unidx, miss), ln, tok, pool))
         t0, r0 = scheds[0]["tree"], scheds[0]["refs"]
         for j, s in enumerate(scheds):
             hist["schedules"] += 1
@@ -118,7 +143,7 @@ def run(ctx):
             if "stuck=false final=true" not in o or "all_indexed=true" not in o or "written_indexed=true" not in o:
                 mism.append((l, "random", o, "stuck=false final=true all_indexed=true written_indexed=true"))
     cov.update({"evaluations": len(lines) * nsched + nrand, "distinct_nontrivial": len(nontriv),
-                "rule": "case = seeded source tree (6..60 entries, files up to 2..200 KB, rabin avg 8 KiB) backed up %d times from the same initial repository under schedules j: pack sizes from one blob per pack to 4 MB, seeded 0..400 us delays before every backend write (off for j%%3==0), RAYON_NUM_THREADS in {1,2,4,16}; non-trivial = at least two schedules produced different pack layouts" % nsched,
+                "rule": "case = seeded source tree (6..60 entries, files up to 2..200 KB, rabin avg 8 KiB) backed up %d times from the same initial repository under schedules j: pack sizes from one blob per pack to 4 MB, seeded 0..400 us delays before every backend write (off for j%%3==0), RAYON_NUM_THREADS in {1,2,4,16}; in a few cases one more schedule with a 12 s stall of one pack write behind one-blob packs; every case also runs backup, backup of a reduced source, forget, prune --repack-all (fast and re-encoding) into one-blob packs under the watchdog; non-trivial = at least two schedules produced different pack layouts" % nsched,
                 "samples": samples, "distribution": hist,
                 "traces_validated_against_impl": len(replays), "model_random_runs": nrand,
                 "disagreements_checked": len(mism) + len(viol), "model_impl_mismatches": len(mism), "oracle_violations": len(viol)})
